@@ -246,6 +246,24 @@ theorem view_first_match (vs : List Set) (internal : Bool) (f : Fam) (a i : Nat)
     constructor <;> rintro ⟨j, hj, hi, h⟩ <;> exact ⟨j, hj, by omega, h⟩
   · simp
 
+/-- **A matching view that has no answer ends the search.** The reply comes
+from view `i` only if `i` is the first view containing the client; in
+particular a later view is never consulted when an earlier containing view
+lacks the queried type. -/
+theorem view_answer_only_from_first (vs : List Set) (types : List (List Nat)) (internal : Bool)
+    (f : Fam) (a qt i : Nat) (h : viewAnswer vs types internal f a qt = some i) :
+    viewPick vs internal f a = some i ∧ (types.getD (i - 1) []).contains qt = true := by
+  unfold viewAnswer at h
+  split at h
+  · cases h
+  · rename_i j hj
+    by_cases hc : (types.getD (j - 1) []).contains qt = true
+    · simp only [hc, if_true, Option.some.injEq] at h
+      subst h
+      exact ⟨hj, hc⟩
+    · simp only [hc] at h
+      cases h
+
 /-! ### facts regenerated from the tree (one-directional side conditions) -/
 
 /-- handlers that may legitimately run before the access list: none of them
